@@ -437,6 +437,18 @@ def locate(fn, loc):
         return assign_value(fn, loc[1], loc[2])
     if kind == "arg":
         return call_arg(fn, loc[1], loc[2], loc[3])
+    if kind == "compif":
+        # first `if` condition of the nth list/set comprehension or generator in the function
+        comps = [n for n in ast.walk(fn) if isinstance(n, (ast.ListComp, ast.SetComp, ast.GeneratorExp))]
+        comps = [c for c in comps if c.generators and c.generators[0].ifs]
+        if len(comps) <= loc[1]:
+            raise Fail("%s: no filtered comprehension #%d" % (fn.name, loc[1]), fn)
+        return comps[loc[1]].generators[0].ifs[0]
+    if kind == "augassign":
+        hits = [n.value for n in ast.walk(fn) if isinstance(n, ast.AugAssign) and loc[1] in ast.unparse(n.target)]
+        if len(hits) <= loc[2]:
+            raise Fail("%s: no augmented assignment to %s" % (fn.name, loc[1]), fn)
+        return hits[loc[2]]
     raise Fail("bad locator %r" % (loc,))
 
 
